@@ -327,7 +327,7 @@ func (i *interpreter) reinitSubject() error {
 // runPath executes harness h following prefix.
 func (i *interpreter) runPath(h *ssa.Function, prefix []int32) (res PathResult) {
 	i.resetPath(prefix)
-	i.symMapOrder = false
+	i.symMapOrder = 0
 	i.mon = nil
 	i.fnCount = map[*ssa.Function]int64{}
 	res.Prefix = prefix
